@@ -282,7 +282,7 @@ fn step(w: &mut W, s: &Value, kmax: i64) -> Value {
         }
         "Modify" => {
             // the modification happens unambiguously later than every continuation point was made (wall clock stamps)
-            std::thread::sleep(std::time::Duration::from_millis(2));
+            std::thread::sleep(std::time::Duration::from_millis(1));
             let before = w.proj(kmax);
             let status = w.modify(s);
             let after = w.proj(kmax);
